@@ -482,3 +482,6 @@ func rulePrefixGuard(c *Ctx) {
 		c.ok("I-PREFIX", "module", "no prefix-equality test behind a strict length guard", token.NoPos, "hand-written prefix tests judged: "+itoa(judged))
 	}
 }
+
+// ruleNilVsEmpty: placeholder filled in below (round 15).
+func ruleNilVsEmpty(c *Ctx) {}
